@@ -49,6 +49,13 @@ Proof. exists 1. split; [lra|]. intros f. rewrite wsum_masked_removed. ring. Qed
 Lemma weq_masked_zero {A} (l1 l2 : list (Q * option A)) w x : weq (l1 ++ (w, None) :: l2) (l1 ++ (0, Some x) :: l2).
 Proof. exists 1. split; [lra|]. intros f. rewrite (wsum_masked_zero f l1 l2 w x). ring. Qed.
 
+Lemma weq_zero_removed {A} (l1 l2 : list (Q * option A)) o : weq (l1 ++ (0, o) :: l2) (l1 ++ l2).
+Proof. exists 1. split; [lra|]. intros f. rewrite !wsum_app. destruct o; cbn [wsum]; ring. Qed.
+
+(* a member of weight w1 + w2 = the same member twice, with weights w1 and w2 *)
+Lemma weq_split {A} (l1 l2 : list (Q * option A)) w1 w2 o : weq (l1 ++ (w1 + w2, o) :: l2) (l1 ++ (w1, o) :: (w2, o) :: l2).
+Proof. exists 1. split; [lra|]. intros f. rewrite !wsum_app. destruct o; cbn [wsum]; ring. Qed.
+
 Lemma weq_drop_masked {A} (l : list (Q * option A)) : weq l (drop_masked l).
 Proof. exists 1. split; [lra|]. intros f. rewrite wsum_drop_masked. ring. Qed.
 
@@ -173,6 +180,18 @@ Definition R_permuted : forall A : Type, list (Q * option A) -> list (Q * option
 Definition R_unmasked : forall A : Type, list (Q * option A) -> list (Q * option A) -> Prop :=
   fun A l l' => (exists l1 l2 w, l = l1 ++ (w, None) :: l2 /\ (l' = l1 ++ l2 \/ exists x, l' = l1 ++ (0, Some x) :: l2))
                 \/ l' = drop_masked l.
+
+(* l' is l with a member of weight 0 removed, or with a member split in two (same payload, weights adding up) *)
+Definition R_zero_or_split : forall A : Type, list (Q * option A) -> list (Q * option A) -> Prop :=
+  fun A l l' => exists l1 l2 o, (l = l1 ++ (0, o) :: l2 /\ l' = l1 ++ l2)
+                                \/ (exists w1 w2, l = l1 ++ (w1 + w2, o) :: l2 /\ l' = l1 ++ (w1, o) :: (w2, o) :: l2).
+
+Lemma zero_or_split_same : all_same R_zero_or_split.
+Proof.
+  apply all_same_weq. intros A l l' (l1 & l2 & o & [[-> ->]|(w1 & w2 & -> & ->)]).
+  - apply weq_zero_removed.
+  - apply weq_split.
+Qed.
 
 Lemma uniform_is_none c : ~ c == 0 -> all_same (R_uniform c).
 Proof. intros Hc. apply all_same_weq. intros A l l' [xs [-> ->]]. apply weq_uniform, Hc. Qed.
